@@ -42,16 +42,18 @@ KIND = {"u32": 0, "s32": 1, "u64": 2, "s64": 3}
 
 def instances(tier):
     out = []
-    uw = {"memcpy": 12, "varint_encode": 12, "varint_decode": 12, "varint_from_source": 12,
-          "varint_u64_length": 12, "sink_put_chunk": 3, "source_get_chunk": 3}
+    # bounds = iterations + 1; every loop here runs at most 10 times (10 octets / 10 septets)
+    uw_rt = {"memcpy": 12, "varint_encode": 12, "varint_decode": 12, "varint_from_source": 12,
+             "varint_u64_length": 12, "sink_put_chunk": 3}
+    uw_ag = {"memcpy": 12, "varint_decode": 12, "varint_from_source": 12}
     for name in ("u32", "s32", "u64", "s64"):
         out.append(mk("c14_roundtrip_" + name, "C14/c14.c", U,
                       {"MODE_ROUNDTRIP": None, "KIND": KIND[name]},
-                      unwind=uw, default_unwind=13, fp_removal=True,
+                      unwind=uw_rt, default_unwind=13, fp_removal=True,
                       desc="round trip, every %s value" % name))
     sizes = (1, 2, 4, 5, 6, 9, 10, 11) if tier == "quick" else range(1, 12)
     for n in sizes:
         out.append(mk("c14_agree_n%d" % n, "C14/c14.c", U, {"MODE_AGREE": None, "N": n},
-                      unwind=uw, default_unwind=13, fp_removal=True,
+                      unwind=uw_ag, default_unwind=13, fp_removal=True,
                       desc="decoder agreement, block of exactly %d octets" % n))
     return out
